@@ -3,6 +3,7 @@
 package jrpc2
 
 import (
+	"context"
 	"encoding/json"
 )
 
@@ -16,9 +17,6 @@ func Harness_C03_order() {
 	log := &verifLog{gates: map[string]chan struct{}{}}
 	mux := verifMap{}
 	nrec := 2
-	if thorough() {
-		nrec = 2 + nondetChoice("nrec", 2)
-	}
 	conc := 2
 	if thorough() {
 		conc = 1 + nondetChoice("conc", 2)
@@ -27,7 +25,9 @@ func Harness_C03_order() {
 		name string
 		note bool
 		rec  int
+		id   string
 	}
+	cancelled := "" // id of a call cancelled by the concurrent CancelRequest (thorough)
 	var mems []mem
 	var records []json.RawMessage
 	idn := 0
@@ -45,12 +45,12 @@ func Harness_C03_order() {
 				idn++
 				id = verifItoa(idn)
 			}
-			mems = append(mems, mem{name: name, note: note, rec: r})
+			mems = append(mems, mem{name: name, note: note, rec: r, id: id})
 			mux[name] = log.handler(name, nil, nil)
 			log.gates[name] = make(chan struct{})
 			raws = append(raws, verifReq(id, name))
 		}
-		if n == 1 && (!thorough() || nondetBool("single")) {
+		if n == 1 {
 			records = append(records, raws[0])
 		} else {
 			records = append(records, tokArray(raws))
@@ -81,6 +81,16 @@ func Harness_C03_order() {
 			vyield()
 		}
 	}()
+	// thorough tier: concurrent CancelRequest / push activity while dispatch is going on
+	if thorough() {
+		switch nondetChoice("concurrent-activity", 3) {
+		case 1:
+			cancelled = verifItoa(1 + nondetChoice("cancel-id", 2))
+			go s.CancelRequest(cancelled)
+		case 2:
+			go s.Notify(context.Background(), "push", nil) // push is off: ErrPushUnsupported, nothing sent
+		}
+	}
 	quiesce()
 	reach("quiescent")
 
@@ -107,8 +117,14 @@ func Harness_C03_order() {
 	// calls running, every request has started unless the concurrency limit
 	// is exhausted by running calls
 	started := len(log.runs)
+	expected := len(mems)
+	for _, m := range mems {
+		if m.id != "" && m.id == cancelled && log.find(m.name) == nil {
+			expected-- // cancelled while waiting for a slot: never runs (C06)
+		}
+	}
 	if log.running < conc {
-		vassert(started == len(mems), "C03: a running call does not delay later arrivals below the concurrency limit")
+		vassert(started == expected, "C03: a running call does not delay later arrivals below the concurrency limit")
 	}
 	vassert(log.maxRun <= conc, "C06: no more handlers at once than Concurrency")
 	for _, m := range mems {
@@ -122,7 +138,11 @@ func Harness_C03_order() {
 	}
 	quiesce()
 	for _, m := range mems {
-		vassert(log.count(m.name) == 1, "C01: every valid request's handler ran exactly once")
+		if m.id != "" && m.id == cancelled {
+			vassert(log.count(m.name) <= 1, "C01/C06: a cancelled call's handler runs at most once")
+		} else {
+			vassert(log.count(m.name) == 1, "C01: every valid request's handler ran exactly once")
+		}
 	}
 	// C01 across several inbound messages: every call got exactly one response
 	// bearing its id, no notification got any, nothing was mixed up or lost
